@@ -70,6 +70,12 @@ type upstream struct {
 
 	// seg cuts TCP replies into segments (private to this upstream).
 	seg *rand.Rand
+
+	// seenGot is how much of got the harness has judged; cleanPrev is set
+	// when the last operation in which this upstream took part was one
+	// exchange answered with one good UDP reply (see judgeRetries).
+	seenGot   int
+	cleanPrev bool
 }
 
 func (u *upstream) String() string {
@@ -351,6 +357,48 @@ func (u *upstream) serve(n *simnet.Net) (stop func()) {
 	}
 }
 
+// judgeRetries looks at what every upstream received during the operation
+// that has just ended (a query or a health-check round; an upstream takes part
+// in at most one exchange of it).  A message that came over UDP and over TCP
+// was retried.  When the upstream is up and was up in the operation before
+// (one message over UDP, one good reply), nothing is left over in the
+// resolver's sockets and nothing explains the retry: the good reply to this
+// message was taken for something else, or an earlier one for this.
+func judgeRetries(s *kernel.Sim, all []*upstream) (ok bool) {
+	for _, u := range all {
+		u.mu.Lock()
+		news := u.got[u.seenGot:]
+		u.seenGot = len(u.got)
+		state := u.state
+		u.mu.Unlock()
+		if len(news) == 0 {
+			continue
+		}
+
+		udp, tcp := 0, 0
+		for _, g := range news {
+			if strings.HasSuffix(g, "/udp") {
+				udp++
+			} else {
+				tcp++
+			}
+		}
+		if state == "up" && u.cleanPrev && udp == 1 && tcp > 0 {
+			s.Failf("C06/reply-taken-for-another", "an upstream's good reply was not taken as the answer to the message it answers (retry over TCP with nothing left over from earlier exchanges)",
+				"%s: %v although this and the previous exchange were each answered with one good UDP reply", u, news)
+
+			return false
+		}
+		// After an exchange answered with one good UDP reply the resolver's
+		// sockets for this upstream hold nothing: either the reply was read
+		// from a clean socket, or something stale was read first, in which
+		// case that socket was closed and the retry went over TCP.
+		u.cleanPrev = state == "up" && udp == 1
+	}
+
+	return true
+}
+
 type rw struct {
 	msgs []*dns.Msg
 }
@@ -441,7 +489,7 @@ func run(s *kernel.Sim, prop, cfg string) {
 
 	states := allStates
 	if prop == "C06" {
-		states = []string{"up", "up", "garbage", "short", "cut", "cut", "ancount", "wrong-name", "two-questions", "tc-then-tcp"}
+		states = []string{"up", "up", "up", "garbage", "short", "cut", "cut", "ancount", "wrong-name", "two-questions", "tc-then-tcp", "dup"}
 	}
 
 	ctx := dnsserver.ContextWithServerInfo(context.Background(), &dnsserver.ServerInfo{Name: "sim", Addr: "x", Proto: dnsserver.ProtoDNS})
@@ -538,6 +586,9 @@ func run(s *kernel.Sim, prop, cfg string) {
 		if !judgeRefresh("construction", desc, time.Now(), func() error { h = forward.NewHandler(hconf); return nil }) {
 			return
 		}
+		if !judgeRetries(s, all) {
+			return
+		}
 	} else {
 		h = forward.NewHandler(hconf)
 	}
@@ -566,6 +617,9 @@ func run(s *kernel.Sim, prop, cfg string) {
 
 		if t.Chance(1, 3, "refresh") {
 			if !judgeRefresh(fmt.Sprintf("op %d", i), desc, now, func() error { return h.Refresh(ctx) }) {
+				return
+			}
+			if !judgeRetries(s, all) {
 				return
 			}
 
@@ -615,6 +669,10 @@ func run(s *kernel.Sim, prop, cfg string) {
 			outcome = fmt.Sprintf("%d responses", len(w.msgs))
 		}
 		s.Logf("op %d t=%v query %s %v -> mains=%v fallbacks=%v outcome=%s err=%v", i, time.Since(baseTime()), name, desc, gotMains, gotFBs, outcome, serr)
+
+		if !judgeRetries(s, all) {
+			return
+		}
 
 		nActive := 0
 		for _, m := range mains {
